@@ -149,7 +149,7 @@ Requests(sh, l) ==
                    R("name", "T", ns, [i \in 1..n |-> IF i = n - 1 THEN Mismatch(sh, l[FirstKey(l, ns[i])]) ELSE tyOf(ns[i])])]
   IN single \o wrong \o bytype
      \o [n \in 1..8 |-> nary[n + 1]] \o [n \in 1..8 |-> naryT[n + 1]] \o [n \in 1..3 |-> few[n + 1]] \o [n \in 1..3 |-> onebad[n + 1]]
-     \o << R("name", "T", <<"zz">>, <<l[1].ty>>), R("type", "T", <<>>, <<"uintptr">>),
+     \o << R("name", "T", <<"zz">>, <<l[1].ty>>), R("name", "T", <<"">>, <<l[1].ty>>), R("type", "T", <<>>, <<"uintptr">>),
            R("name", "T", <<keys[1], "zz">>, <<tyOf(keys[1]), "int8">>), R("type", "T", <<>>, <<types[1], "uintptr">>),
            R("name", "*T", <<keys[1]>>, <<tyOf(keys[1])>>), R("type", "*T", <<>>, <<types[1]>>),
            R("name", "*T", <<"zz">>, <<"int8">>) >>
